@@ -11,10 +11,11 @@ for id in $IDS; do
   ( cd $wt && git apply /verif/seeded/$id/patch.diff ) || { echo "$id: patch does not apply"; continue; }
   cd /verif
   start=$(date +%s)
-  VERIF_REPO=$wt VERIF_TAG=-seed VERIF_EVIDENCE_DIR=/tmp/seedrun/evidence ${TRY_ENV:-} python3 run/vf.py check $id ${TRY_ARGS:-} > /tmp/seedrun/$id.log 2>&1
+  prop=${id%%-*}
+  VERIF_REPO=$wt VERIF_TAG=-seed VERIF_EVIDENCE_DIR=/tmp/seedrun/evidence ${TRY_ENV:-} python3 run/vf.py check $prop ${TRY_ARGS:-} > /tmp/seedrun/$id.log 2>&1
   rc=$?
   {
-    echo "seed $id vs check $id (quick) at /verif $(git -C /verif rev-parse --short HEAD): exit=$rc wall=$(( $(date +%s) - start ))s"
+    echo "seed $id vs check $prop (quick) at /verif $(git -C /verif rev-parse --short HEAD): exit=$rc wall=$(( $(date +%s) - start ))s"
     grep -E "^VIOLATION|^\[vf\] (FAIL|\?\?|counterexample|NOT DECIDED|also failing)|^KNOWN" /tmp/seedrun/$id.log | cut -c1-400 | head -20
   } > /verif/seeded/$id/check.txt
   cat /verif/seeded/$id/check.txt
